@@ -4,6 +4,7 @@ from __future__ import annotations
 
 import itertools
 
+from vf.guard import call as gcall, too_many_hangs
 from vf.core import Job, indexed_chunk, viol
 
 LEVEL = "exploration"
@@ -41,7 +42,7 @@ def judge(matrix, minimize):
     r = len(matrix)
     c = len(matrix[0])
     try:
-        res = solve_hungarian([list(row) for row in matrix], minimize=minimize)
+        res = gcall(lambda: solve_hungarian([list(row) for row in matrix], minimize=minimize))
     except Exception as ex:  # noqa: BLE001
         return [("raised", f"{type(ex).__name__}: {ex}")], "raised", False
     a = res.solution
